@@ -150,11 +150,17 @@ SkEnums ==
               VRef(PType("vref_public", <<"kv">>, "uint8", "constant")),                             \* b+8
               Msg("vref_tfield", <<"m_kv">>), [Field(b + 9, "f", <<"f">>, b + 8, "") EXCEPT !.pres = ""],   \* b+9, b+10
               PComp("vref_inline", <<"c_kvi">>), VRef(IType(b + 11, "vref_inline", <<"ikv">>, "uint8", "constant")),  \* b+11, b+12
-              PComp("vref_ref", <<"c_kvr">>), Ref(b + 13, "r", <<"r">>, b + 8),                     \* b+13, b+14
-              \* two names for one value (an accepted schema must still give a visit / enum_to_string
-              \* that compiles; a schema sbeppc rejects says nothing about C07)
-              PEnum("dupval", <<"e_dupval">>, "uint8"), EVal(b + 15, "one", <<"one">>, "1"), EVal(b + 15, "uno", <<"uno">>, "1"),
-              PEnum("dupvalc", <<"ec_dupval">>, "char"), EVal(b + 18, "a", <<"a">>, "A"), EVal(b + 18, "b", <<"b">>, "A") >>
+              PComp("vref_ref", <<"c_kvr">>), Ref(b + 13, "r", <<"r">>, b + 8) >>                   \* b+13, b+14
+
+\* two names for one value, also spelled differently (1 / 01).  Nothing says whether
+\* sbeppc has to accept that (must = FALSE), but an accepted schema must still give
+\* a visit / enum_to_string that compiles: the generated switch cannot have two
+\* equal case labels.
+SkEnumDup ==
+  LET all == << PEnum("dupval", <<"e_dupval">>, "uint8"), EVal(1, "one", <<"one">>, "1"), EVal(1, "uno", <<"uno">>, "1"),
+                PEnum("dupvalc", <<"ec_dupval">>, "char"), EVal(4, "a", <<"a">>, "A"), EVal(4, "b", <<"b">>, "A"),
+                PEnum("dupvallz", <<"e_dupvallz">>, "int16"), EVal(7, "p", <<"p">>, "7"), EVal(7, "q", <<"q">>, "07") >>
+  IN [k \in 1 .. Len(all) |-> [all[k] EXCEPT !.must = FALSE]]
 
 \* -------------------------------------------------------------------- sets --
 SetEncs == <<"uint8", "uint16", "uint32", "uint64">>
